@@ -346,14 +346,17 @@ pub fn run(a: &Args) -> Report {
     let mut rng = Rng::new(mix(a.seed, 0xc18 + a.shard));
     let per = |q: u64, t: u64| (if a.quick() { q } else { t }) / a.nshards.max(1);
     for _ in 0..per(160, 4000) {
-        modes_scenario(&mut r, rng.u64());
+        let s = rng.u64();
+        super::guarded(&mut r, json!({"class":"modes","seed":s.to_string()}), |r| modes_scenario(r, s));
         r.count("modes_scenarios");
     }
     for i in 0..per(320, 8000) {
-        ro_reply_scenario(&mut r, rng.u64(), i % 4 != 0);
+        let (s, f) = (rng.u64(), i % 4 != 0);
+        super::guarded(&mut r, json!({"class":"ro-replies","seed":s.to_string(),"flagged":f}), |r| ro_reply_scenario(r, s, f));
     }
     for i in 0..per(80, 1600) {
-        adaptive_scenario(&mut r, rng.u64(), (i + a.shard) as usize % 5);
+        let (s, v) = (rng.u64(), (i + a.shard) as usize % 5);
+        super::guarded(&mut r, json!({"class":"adaptive","seed":s.to_string(),"variant":v}), |r| adaptive_scenario(r, s, v));
         r.count("adaptive_timelines");
     }
     r
